@@ -101,8 +101,11 @@ class Executor(ResolutionContext):
             or parent_type.default_resolver
             or self._default_resolver
         )
+        # By identity: a resolver is any callable, not necessarily a hashable
+        # one (the schema keeps it alive for the duration of the request).
+        key = id(base)
         try:
-            return self._resolver_cache[base]
+            return self._resolver_cache[key]
         except KeyError:
             wrapped = (
                 self.runtime.wrap_callable(base)
@@ -111,7 +114,7 @@ class Executor(ResolutionContext):
             )
             if self._middlewares:
                 wrapped = apply_middlewares(wrapped, self._middlewares)
-            self._resolver_cache[base] = wrapped
+            self._resolver_cache[key] = wrapped
             return wrapped
 
     def resolve_type(
